@@ -28,6 +28,12 @@ Theorem cfg_clock_last : forall opts o,
   cfg_clock (opts ++ [o]) = match o with CClock k => k | _ => cfg_clock opts end.
 Proof. intros opts o. unfold cfg_clock. rewrite calc_args_snoc. destruct o; reflexivity. Qed.
 
+(* the change times of events: the last clock handed to that resource, by whatever route *)
+Theorem cfg_event_clocks_last : forall opts o,
+  cfg_mclock (opts ++ [o]) = match o with CClock k | CResClock k | CModeClock k => k | _ => cfg_mclock opts end /\
+  cfg_aclock (opts ++ [o]) = match o with CClock k | CResClock k | CActiveClock k => k | _ => cfg_aclock opts end.
+Proof. intros opts o. unfold cfg_mclock, cfg_aclock. rewrite calc_args_snoc. destruct o; split; reflexivity. Qed.
+
 Lemma fold_active_irrelevant : forall opts a b,
   a_active a = a_active b -> a_clock a = a_clock b ->
   a_active (fold_left apply_opt opts a) = a_active (fold_left apply_opt opts b) /\
@@ -208,5 +214,7 @@ Example config_panics :
   new_model [CInitial [ma]; CRecord true (mkM "a" "" false None)] = None /\
   new_model [CInitial [mkM "" "" false None]] = None /\
   cfg_clock [CClock 1; CResClock 2; CClock 3; CResClock 2] = 3 /\ cfg_clock [CResClock 2] = 0 /\
-  cfg_active [CActive true mb; CActive false mc; CInitial [ma]] = mc.
+  cfg_active [CActive true mb; CActive false mc; CInitial [ma]] = mc /\
+  cfg_mclock [CClock 1; CModeClock 2; CActiveClock 3] = 2 /\ cfg_aclock [CClock 1; CModeClock 2; CActiveClock 3] = 3 /\
+  cfg_mclock [CClock 1; CResClock 3] = 3 /\ cfg_aclock [CResClock 3; CClock 1] = 1.
 Proof. vm_compute. repeat split. Qed.
